@@ -12,7 +12,7 @@ cp spec/*.tla "$tmp"/
 for f in spec/*.tla; do
   b=$(basename "$f")
   case "$b" in Trace*) continue;; esac
-  (cd "$tmp" && java -cp /opt/veriftools/tla/tla2tools.jar:/opt/veriftools/tla/CommunityModules-deps.jar tla2sany.SANY "$b" >"$tmp/sany.log" 2>&1) || { echo "SANY failed on $b"; tail -5 "$tmp/sany.log"; rc=1; }
+  (cd "$tmp" && java -Djava.io.tmpdir="$tmp" -cp /opt/veriftools/tla/tla2tools.jar:/opt/veriftools/tla/CommunityModules-deps.jar tla2sany.SANY "$b" >"$tmp/sany.log" 2>&1) || { echo "SANY failed on $b"; tail -5 "$tmp/sany.log"; rc=1; }
 done
 rm -rf "$tmp"
 /venv/bin/python -B -m wire.selftest || rc=1
